@@ -118,6 +118,68 @@ def inline_generator_loops(fn: ast.FunctionDef, helpers: Dict[str, ast.FunctionD
     return new_fn
 
 
+def inline_kwargs_helpers(fn: ast.FunctionDef, helpers: Dict[str, ast.FunctionDef]) -> ast.FunctionDef:
+    """A copy of `fn` in which `f(..., **self.helper(args))` is replaced by explicit keyword
+    arguments when `helper` does nothing but `return dict(k=v, ...)` / `return {"k": v, ...}`:
+    the parameters of the helper are substituted by the call's arguments.  Building the shared
+    keyword arguments of several constructors in one place does not change what the rules see."""
+    import copy
+
+    from .core import link_parents
+
+    def table(h: ast.FunctionDef) -> Optional[List[Tuple[str, ast.expr]]]:
+        body = [b for b in h.body if not (isinstance(b, ast.Expr) and isinstance(b.value, ast.Constant))]
+        if len(body) != 1 or not isinstance(body[0], ast.Return) or body[0].value is None:
+            return None
+        v = body[0].value
+        if isinstance(v, ast.Call) and isinstance(v.func, ast.Name) and v.func.id == "dict" and not v.args and all(k.arg is not None for k in v.keywords):
+            return [(k.arg, k.value) for k in v.keywords]  # type: ignore[misc]
+        if isinstance(v, ast.Dict) and all(isinstance(k, ast.Constant) and isinstance(k.value, str) for k in v.keys):
+            return [(k.value, x) for k, x in zip(v.keys, v.values)]  # type: ignore[union-attr]
+        return None
+
+    changed = False
+    new_fn = copy.deepcopy(fn)
+    for n in ast.walk(new_fn):
+        if not isinstance(n, ast.Call):
+            continue
+        kws: List[ast.keyword] = []
+        for k in n.keywords:
+            c = k.value
+            if k.arg is None and isinstance(c, ast.Call) and isinstance(c.func, ast.Attribute) and isinstance(c.func.value, ast.Name) and c.func.value.id == "self" and c.func.attr in helpers and not c.keywords:
+                h = helpers[c.func.attr]
+                tb = table(h)
+                params = [a.arg for a in h.args.args[1:]]
+                if tb is not None and len(params) == len(c.args) and all(isinstance(a, (ast.Name, ast.Constant, ast.Subscript, ast.Attribute)) for a in c.args):
+                    mapping = dict(zip(params, c.args))
+
+                    class T(ast.NodeTransformer):
+                        def visit_Name(self, x: ast.Name) -> Any:
+                            if x.id in mapping and isinstance(x.ctx, ast.Load):
+                                return copy.deepcopy(mapping[x.id])
+                            return x
+
+                    for kn, kv in tb:
+                        nv = T().visit(copy.deepcopy(kv))
+                        for y in ast.walk(nv):
+                            if hasattr(y, "lineno"):
+                                y.lineno = n.lineno  # type: ignore[attr-defined]
+                                y.end_lineno = n.lineno  # type: ignore[attr-defined]
+                        kws.append(ast.keyword(arg=kn, value=nv))
+                    changed = True
+                    continue
+            kws.append(k)
+        n.keywords = kws
+    if not changed:
+        return fn
+    ast.fix_missing_locations(new_fn)
+    link_parents(new_fn)
+    par = getattr(fn, "_parent", None)
+    if par is not None:
+        new_fn._parent = par  # type: ignore[attr-defined]
+    return new_fn
+
+
 def inline_statement_helpers(fn: ast.FunctionDef, helpers: Dict[str, ast.FunctionDef], depth: int = 2) -> ast.FunctionDef:
     """A copy of `fn` in which statement-level calls `self.helper(args)` of
     procedure-like helpers (no value returned) are replaced by the helper's
@@ -159,7 +221,17 @@ def inline_statement_helpers(fn: ast.FunctionDef, helpers: Dict[str, ast.Functio
                 params = [a.arg for a in h.args.args[1:]]
                 simple = all(isinstance(a, (ast.Name, ast.Constant, ast.Subscript, ast.Attribute)) for a in c.args)
                 assigned = {x.id for n in ast.walk(h) for x in ast.walk(n) if isinstance(x, ast.Name) and isinstance(x.ctx, ast.Store)}
-                if procedure_like(h) and len(params) == len(c.args) and simple and not (assigned & set(params)) and h.name != fn.name:
+                # trailing parameters not passed take their (constant) defaults
+                call_args = list(c.args)
+                dfl = h.args.defaults
+                if len(call_args) < len(params) and len(params) - len(call_args) <= len(dfl):
+                    need = len(params) - len(call_args)
+                    tail = dfl[len(dfl) - need :] if need else []
+                    if all(isinstance(d_, ast.Constant) for d_ in tail):
+                        call_args = call_args + [copy.deepcopy(d_) for d_ in tail]
+                if procedure_like(h) and len(params) == len(call_args) and simple and not (assigned & set(params)) and h.name != fn.name:
+                    c = copy.copy(c)
+                    c.args = call_args
                     body = [b for b in h.body if not (isinstance(b, ast.Expr) and isinstance(b.value, ast.Constant))]
                     if body and isinstance(body[-1], ast.Return):
                         rv = body[-1].value
@@ -255,6 +327,7 @@ class Grammar:
             st = st0
             if isinstance(st, ast.FunctionDef) and st.name.startswith("p_") and st.name != "p_error":
                 st = inline_statement_helpers(st, helpers)
+                st = inline_kwargs_helpers(st, helpers)
             if isinstance(st, ast.FunctionDef) and st.name.startswith("p_") and st.name != "p_error":
                 prods: List[Production] = []
                 for d in st.decorator_list:
